@@ -129,7 +129,7 @@ class MDCPDPEnv(RL4COEnvBase):
 
         # Update the current depot
         current_depot = td["current_depot"]
-        current_depot = torch.where(back_flag, current_node, current_depot)
+        current_depot = torch.where(current_node < num_depot, current_node, current_depot)
 
         # Update the length of current tour
         current_length = td["current_length"]
